@@ -90,7 +90,7 @@ struct Filt
    bool EvalMsg(const muscle::Message * m) const
    {
       if (kind == '-') return true;
-      if (m == NULL) return false;
+      if (m == NULL) return true;   // a node without any payload object is never subjected to filters (consistent throughout the server)
       int32 v = 0; const bool hasV = m->FindInt32("v", v).IsOK();
       return Eval(m->what, hasV, v);
    }
